@@ -1,6 +1,9 @@
 package props
 
 import (
+	"strconv"
+	"unicode/utf8"
+
 	"github.com/uhn/ggql/pkg/ggql"
 
 	"verif/harness/sym"
@@ -256,4 +259,117 @@ func C07_loc() {
 			sym.Assert(col <= lineLen+1, "column lies within that line")
 		}
 	}
+}
+
+// ---- leaves of every scalar kind in the response, floats of every text form
+
+const c07LeafSchema = `type Query { f: Float g: Float64 fl: [Float64] b: Boolean i: Int t: String id: ID }`
+
+var c07Floats = []float64{0, 2.5, -0.75, 3, 1e20, 1e21, -4e22, 2e-5, 1.5e-7, 5e-324, 1.7976931348623157e308, 123456789.125, 1e-4, 1e100}
+
+type c07LeafNode struct {
+	f  float64
+	g  float64
+	i  int32
+	t  string
+	b  bool
+	id string
+}
+
+func (n *c07LeafNode) Resolve(field *ggql.Field, args map[string]interface{}) (interface{}, error) {
+	switch field.Name {
+	case "query":
+		return n, nil
+	case "f":
+		return float32(n.f), nil
+	case "g":
+		return n.g, nil
+	case "fl":
+		return []interface{}{n.g, n.f, nil}, nil
+	case "b":
+		return n.b, nil
+	case "i":
+		return n.i, nil
+	case "t":
+		return n.t, nil
+	case "id":
+		return n.id, nil
+	}
+	return nil, nil
+}
+
+// C07_leaves: a response carrying every scalar kind (floats in plain and in
+// exponent form, E; strings of every content, S) serialises to valid JSON
+// that decodes back to the same structure.
+func C07_leaves() {
+	g := c07Floats[sym.Choice("float", len(c07Floats))]
+	f := g
+	if f > 3e38 || (f != 0 && f < 1e-37) {
+		f = -2e-5 // (outside float32: another exponent form)
+	}
+	n := &c07LeafNode{f: f, g: g, i: 7, t: sym.String("t", 1), b: sym.Bool("b"), id: "k"}
+	sym.Assume(utf8.ValidString(n.t))
+	root := ggql.NewRoot(n)
+	if err := root.ParseString(c07LeafSchema); err != nil {
+		panic("harness schema rejected: " + err.Error())
+	}
+	res := root.ResolveString("{f g fl b i t id}", "", nil)
+	sym.Observe("res", res)
+	sym.Assert(res["errors"] == nil, "valid request has no errors")
+	sym.Assert(envelopeProblem(res) == "", "well-formed envelope")
+	for _, indent := range []int{-1, 0, 2} {
+		text := jsonText(res, indent)
+		jv, ok := parseJSON(text)
+		sym.Assert(ok, "response serialises to valid JSON")
+		sym.Assert(c07Same(jv, res), "JSON decodes back to the same structure")
+	}
+}
+
+// c07Same compares a decoded JSON value with the written one; a float is the
+// same when its JSON number text parses back to it.
+func c07Same(j, v interface{}) bool {
+	switch tv := v.(type) {
+	case float32:
+		switch tj := j.(type) {
+		case int64:
+			return float32(tj) == tv
+		case jnum:
+			f, err := strconv.ParseFloat(string(tj), 32)
+			return err == nil && float32(f) == tv
+		}
+		return false
+	case float64:
+		switch tj := j.(type) {
+		case int64:
+			return float64(tj) == tv
+		case jnum:
+			f, err := strconv.ParseFloat(string(tj), 64)
+			return err == nil && f == tv
+		}
+		return false
+	case []interface{}:
+		tj, ok := j.([]interface{})
+		if !ok || len(tj) != len(tv) {
+			return false
+		}
+		for k := range tv {
+			if !c07Same(tj[k], tv[k]) {
+				return false
+			}
+		}
+		return true
+	case map[string]interface{}:
+		tj, ok := j.(map[string]interface{})
+		if !ok || len(tj) != len(tv) {
+			return false
+		}
+		for k, e := range tv {
+			je, has := tj[string([]rune(k))]
+			if !has || !c07Same(je, e) {
+				return false
+			}
+		}
+		return true
+	}
+	return sym.DeepEqual(j, normalize(v))
 }
